@@ -82,6 +82,30 @@ def rn_pre(ls, f):
     return u['pre']
 
 
+def _ieee_exact(t):
+    """simplify with identities that hold exactly in IEEE arithmetic for finite non-zero operands"""
+    if not isinstance(t, tuple) or not t or t[0] in ('num', 'sym'):
+        return t
+    if t[0] in ('+', '-', '*', '/') and len(t) == 3:
+        a, b = _ieee_exact(t[1]), _ieee_exact(t[2])
+        if t[0] == '/':
+            if a == b:
+                return ONE
+            if a == ZERO:
+                return ZERO
+            return div(a, b)
+        if t[0] == '*':
+            if a == ZERO or b == ZERO:
+                return ZERO
+            return mul(a, b)
+        if t[0] == '+':
+            return add(a, b)
+        if a == b:
+            return ZERO
+        return sub(a, b)
+    return t
+
+
 def _same_data(v, D):
     """v is the raw data slice D of the current dimension"""
     if v == D:
@@ -415,4 +439,16 @@ def check(ctx):
             check_equal(ctx, 'R3.uniform_right_end', fsite(c), 'last boundary of the default grid',
                         T.subst(body, {k: B}), ONE)
             check_equal(ctx, 'R3.uniform', fsite(c), 'default grid boundary k = k / bins', body, div(k, B))
+            # the end points must be 0 and 1 EXACTLY in floating point, not only over the reals: only
+            # identities that are exact in IEEE arithmetic are used (x/x = 1, 0/x = 0, 0*x = 0, x*1 = x,
+            # x+0 = x, x-x = 0 for finite non-zero x)
+            lo_x, hi_x = _ieee_exact(T.subst(body, {k: ZERO})), _ieee_exact(T.subst(body, {k: B}))
+            if lo_x == ZERO and hi_x == ONE:
+                ctx.holds('R3.uniform_ends_exact', fsite(c), 'first boundary is exactly 0 and last boundary is '
+                          'exactly 1 in floating-point arithmetic (bins/bins)')
+            else:
+                ctx.violation('R3.uniform_ends_exact', fsite(c), 'the end points of the default grid are 0 and 1 only '
+                              'over the reals: in floating point the last boundary is %s, which is below 1 for '
+                              'some bin counts (e.g. 49 bins in double for bins*(1/bins)); refinement inherits it'
+                              % T.pretty(hi_x)[:120], {'first': T.pretty(lo_x)[:120], 'last': T.pretty(hi_x)[:120]})
         ctx.guard('R3.uniform', fsite(c), rc)
